@@ -13,6 +13,7 @@ use crate::httpd::{Action, Server};
 use crate::inst::{FragPlan, PendPlan};
 use crate::proc::{self, p, s, Exit, Run};
 use crate::refimpl::chunker::{Algo, Cfg};
+use crate::refimpl::codec;
 use crate::scn::{self, Arch, CloneSpec, CompressSpec};
 use crate::util::{first_diff, hex, par_map, Rng};
 use serde_json::{json, Value};
@@ -29,12 +30,20 @@ enum Mutation {
     SwapPayload(usize, usize),
     /// Replace stored bytes at [off, off+len) by the given bytes (same length).
     Replace(usize, Vec<u8>),
+    /// Two mutations applied one after the other (e.g. the other accepted file magic
+    /// plus an edit elsewhere in the header).
+    Both(Box<Mutation>, Box<Mutation>),
 }
 
 impl Mutation {
     fn apply(&self, a: &[u8], arch: &Arch) -> Vec<u8> {
+        if let Mutation::Both(x, y) = self {
+            let first = x.apply(a, arch);
+            return y.apply(&first, arch);
+        }
         let mut v = a.to_vec();
         match self {
+            Mutation::Both(..) => unreachable!(),
             Mutation::Flip(pos, bit) => v[*pos] ^= 1 << bit,
             Mutation::Truncate(n) => v.truncate(*n),
             Mutation::Overwrite(pos, d) | Mutation::Replace(pos, d) => {
@@ -77,9 +86,13 @@ impl Mutation {
             Mutation::Replace(p, d) => json!({"replace": [p, hex(d)]}),
             Mutation::Append(d) => json!({"append": hex(d)}),
             Mutation::SwapPayload(i, j) => json!({"swap": [i, j]}),
+            Mutation::Both(x, y) => json!({"both": [x.json(), y.json()]}),
         }
     }
     fn from(v: &Value) -> Mutation {
+        if let Some(b) = v.get("both") {
+            return Mutation::Both(Box::new(Mutation::from(&b[0])), Box::new(Mutation::from(&b[1])));
+        }
         if let Some(f) = v.get("flip") {
             Mutation::Flip(f[0].as_u64().unwrap() as usize, f[1].as_u64().unwrap() as u8)
         } else if let Some(n) = v.get("truncate") {
@@ -102,6 +115,7 @@ impl Mutation {
             Mutation::Overwrite(p, d) | Mutation::Replace(p, d) => *p < header_len && !d.is_empty(),
             Mutation::Append(_) => false,
             Mutation::SwapPayload(..) => false,
+            Mutation::Both(x, y) => x.touches_header(header_len, _alen) || y.touches_header(header_len, _alen),
         }
     }
     fn kind(&self) -> &'static str {
@@ -112,6 +126,7 @@ impl Mutation {
             Mutation::Replace(..) => "replace",
             Mutation::Append(_) => "append",
             Mutation::SwapPayload(..) => "swap_payload",
+            Mutation::Both(..) => "magic_swap+header_edit",
         }
     }
 }
@@ -280,6 +295,22 @@ fn exhaustive(rep: &Report, seed: u64, tier: Tier) {
         for t in 0..n {
             muts.push(Mutation::Truncate(t));
         }
+        // The other accepted file magic (6 changed bytes — no bit flip gets there) alone
+        // and combined with an edit of every other header byte: still a header change.
+        let other_magic = if &arch.bytes[..6] == codec::MAGIC { codec::MAGIC_LEGACY.to_vec() } else { codec::MAGIC.to_vec() };
+        muts.push(Mutation::Overwrite(0, other_magic.clone()));
+        for pos in 6..hl {
+            muts.push(Mutation::Both(Box::new(Mutation::Overwrite(0, other_magic.clone())), Box::new(Mutation::Flip(pos, (pos % 8) as u8))));
+        }
+        // ... and with structured edits: swap two adjacent dictionary bytes
+        for pos in 14..hl.saturating_sub(73) {
+            if arch.bytes[pos] != arch.bytes[pos + 1] {
+                muts.push(Mutation::Both(
+                    Box::new(Mutation::Overwrite(0, other_magic.clone())),
+                    Box::new(Mutation::Overwrite(pos, vec![arch.bytes[pos + 1], arch.bytes[pos]])),
+                ));
+            }
+        }
         let seed_path = dir.join("seed.bin");
         std::fs::write(&seed_path, gen::apply_edit(&mut rng, &arch.source, gen::Edit::Overwrite)).unwrap();
         let res = par_map(muts.len(), crate::util::ncpu(), |i| {
@@ -291,7 +322,8 @@ fn exhaustive(rep: &Report, seed: u64, tier: Tier) {
             rep.eval();
             let region = match &muts[i] {
                 Mutation::Flip(p, _) => if *p < hl { "header" } else { "payload" },
-                _ => "truncate",
+                Mutation::Truncate(_) => "truncate",
+                _ => "magic_swap",
             };
             match r {
                 Ok("timeout") => rep.inconclusive("watchdog"),
